@@ -293,3 +293,66 @@ func c20View(kind string, data []byte, byName map[string]int) (string, error) {
 	}
 	return "VwItems " + c20CoqItems(items), nil
 }
+
+// c20ParseTTLV reads binary TTLV (the model's leaf types and structures only).
+func c20ParseTTLV(data []byte) ([]*c20Item, error) {
+	var out []*c20Item
+	for len(data) > 0 {
+		if len(data) < 8 {
+			return nil, fmt.Errorf("ttlv: truncated header")
+		}
+		tag := int64(data[0])<<16 | int64(data[1])<<8 | int64(data[2])
+		typ := data[3]
+		l := int(data[4])<<24 | int(data[5])<<16 | int(data[6])<<8 | int(data[7])
+		pad := (8 - l%8) % 8
+		if len(data) < 8+l+pad {
+			return nil, fmt.Errorf("ttlv: truncated value")
+		}
+		val := data[8 : 8+l]
+		data = data[8+l+pad:]
+		it := &c20Item{tag: tag}
+		be := func(b []byte) uint64 {
+			var u uint64
+			for _, x := range b {
+				u = u<<8 | uint64(x)
+			}
+			return u
+		}
+		switch typ {
+		case 1:
+			ch, err := c20ParseTTLV(val)
+			if err != nil {
+				return nil, err
+			}
+			it.children = ch
+		case 2:
+			if l != 4 {
+				return nil, fmt.Errorf("ttlv: bad integer length")
+			}
+			it.typ, it.val = "Integer", "LInt "+h.Z(int64(int32(be(val))))
+		case 3:
+			if l != 8 {
+				return nil, fmt.Errorf("ttlv: bad long length")
+			}
+			it.typ, it.val = "LongInteger", "LLong "+h.Z(int64(be(val)))
+		case 6:
+			if l != 8 {
+				return nil, fmt.Errorf("ttlv: bad boolean length")
+			}
+			it.typ, it.val = "Boolean", "LBool "+h.Bool(be(val) != 0)
+		case 7:
+			it.typ, it.val = "TextString", "LText "+h.Bytes(val)
+		case 8:
+			it.typ, it.val = "ByteString", "LBytes "+h.Bytes(val)
+		case 10:
+			if l != 4 {
+				return nil, fmt.Errorf("ttlv: bad interval length")
+			}
+			it.typ, it.val = "Interval", "LInterval "+h.Z(int64(uint32(be(val))))
+		default:
+			return nil, fmt.Errorf("ttlv: type %d is outside the model's alphabet", typ)
+		}
+		out = append(out, it)
+	}
+	return out, nil
+}
